@@ -31,8 +31,11 @@ def run(rep):
     full, exact, text = gen.generate()
     hs = []
     for t in gen.triples():
-        tiers = ("thorough",) if SLOW(t) else ("quick", "thorough")
-        tmo = 3600 if SLOW(t) else 900
+        if SLOW(t):
+            # measured: > 40 min each (symbolic BigInt construction behind `or_else`); not run in either tier
+            continue
+        tiers = ("quick", "thorough")
+        tmo = 900
         hs.append(H(gen.name("c14_num", t), "total preorder on %s x %s x %s (full domain, non-NaN)" % t, complete=True, tiers=tiers, timeout=tmo))
         if "NativeInt" in t:
             hs.append(H(gen.name("c14_exact", t), "total preorder on %s x %s x %s with |int| <= 2^24 (all promotions exact)" % t, complete=True, tiers=tiers, timeout=tmo))
@@ -62,7 +65,7 @@ def run(rep):
         else:
             rep.violation("kani:sophia_sparql::" + h.name, kani_unit.describe_failure(r), witness=witness,
                           replay_text="./check C14 --replay <this file>   # replay_src/c14 %s (ASK/FILTER through SparqlWrapper)" % kinds, confirmed=confirmed)
-    rep.not_covered += ["NaN operands, BigInt / BigDecimal operands", "strings, booleans, dateTimes, ill-typed literals and the Term::cmp fallback",
+    rep.not_covered += ["kind triples with two or more NativeInt operands (7 of 27): CBMC does not finish (> 40 min each)", "NaN operands, BigInt / BigDecimal operands", "strings, booleans, dateTimes, ill-typed literals and the Term::cmp fallback",
                         "cmp_bindings_with (None < Some, DESC, later keys) and sort_unstable_by in exec.rs"]
 
 
